@@ -1,7 +1,7 @@
 SPECIFICATION Spec
 CONSTANTS
-  MaxN = 5
-  MaxLen = 7
+  MaxN = 6
+  MaxLen = 8
 INVARIANTS
   MutationsRepeat
   OriginalAccepted
